@@ -21,8 +21,13 @@ import numpy as np
 
 THEOREMS = [
     'AbacusVerif.Fields.deps_order',
+    'AbacusVerif.Fields.deps_ok',
     'AbacusVerif.Fields.column_independent',
+    'AbacusVerif.Fields.column_independent_pair',
     'AbacusVerif.Fields.no_request_dependent_failure',
+    'AbacusVerif.Fields.setupFields_index_cols',
+    'AbacusVerif.Fields.generated_wf',
+    'AbacusVerif.Fields.generated_wf2',
 ]
 LEAN_MODULES = ['AbacusVerif.Props.C02']
 DRIVER = 'drv_c02'
